@@ -495,6 +495,7 @@ def run(ctx):
             ctx.violation("threads:data-race:%s" % sig.replace(" ", "@"), "ThreadSanitizer: %s [%s]" % (rep.splitlines()[0], where), {"report": rep[:2000]})
     else:
         ctx.note("no ThreadSanitizer build available")
+    print("")      # the server's own messages on stdout do not end with a newline
     cov = {
         "evaluations": len(tasks) + len(dry) + nint + nthreadruns + 1,
         "distinct_nontrivial": len(tasks) + nint + len(served),
